@@ -305,6 +305,11 @@ func (f *File) enterWriteMode() error {
 				"",
 				true,
 			); err != nil {
+				// Don't keep a buffer that holds only a part of the file (or content that failed verification): the next write has to load the file again
+				_ = f.writeBuf.Close()
+				_ = f.cleanWriteBuf()
+				f.writeBuf = nil
+
 				return err
 			}
 		}
